@@ -71,6 +71,10 @@ func (g *irGenCtx) genModels() {
 	ns := r.Intn(4)
 	for i := 0; i < ns; i++ {
 		s := irStruct{Name: fmt.Sprintf("Model%d", i), PkgPath: ctlPkg, Description: rng.Pick(r, []string{"", "a model"}), Deprecated: r.Chance(1, 10)}
+		if i == ns-1 && !badValidators && r.Chance(1, 3) {
+			// a user type whose name differs from the built-in `error` by case only: it is a component of its own
+			s.Name = "Error"
+		}
 		nf := r.Intn(5)
 		for j := 0; j < nf; j++ {
 			f := irField{Name: fmt.Sprintf("F%d", j), Description: rng.Pick(r, []string{"", "a field"}), Deprecated: r.Chance(1, 10)}
@@ -371,6 +375,8 @@ func (g *irGenCtx) genRoute(ci, ri int, ctrlPath string, schemes []irScheme, per
 	errT := irType{Name: "error", IsUniverse: true, SymbolKind: "Special"}
 	if len(g.structs) > 0 && r.Chance(1, 6) {
 		errT = g.structType(rng.Pick(r, g.structs), r.Bool(), false)
+	} else if n := len(g.structs); n > 0 && g.structs[n-1].Name == "Error" && r.Chance(1, 3) {
+		errT = g.structType(g.structs[n-1], r.Bool(), false)
 	}
 	if r.Chance(1, 2) {
 		var vt irType
